@@ -1,5 +1,5 @@
 (** The fixed interpretation I0 used by the behavioural cross-check (tools/k2.py, suites eq / ord /
-    hash): the same tables as k2/src/support.rs.  An atom `A<K>(v)` is the integer 1000 * K + v;
+    hash / debug / clone / deref / into / default): the same tables as k2/src/support.rs.  An atom `A<K>(v)` is the integer 1000 * K + v;
     value 7 is NaN-like.  The emitted methods of the MODEL are run under I0 in the interpreter
     (extracted) and compared with what the REAL compiled code returns on the same values:
     implementation = model-under-Interp, for the semantics Sem/Interp.v that the theorems are about. *)
@@ -137,5 +137,266 @@ Definition model_clone_from (d : dinput) (a b : value) : option string :=
                | Some (a', _, _) => Some (show_value a')
                | None => None
                end
+  | None => None
+  end.
+
+(** ** Deref / DerefMut (C09): the place the emitted `deref` / `deref_mut` returns for the value [x] stored at
+    root `self`, [h] being what the references held by [x] point to (the driver names the referent of the
+    reference field `k` as the root `*k`).  rustc coerces the body to `&Target`, Target never being a
+    reference type (C09_target_type): the dereferences it inserts follow the references up to the first
+    place that does not hold one ([auto_deref]; [coercions] of Spec/SpecDeref.v counts the same steps from
+    the declared type).  Printed as the field key, `*key` for the referent of a reference field. *)
+From Educe.Spec Require Import SpecDeref SpecInto.
+
+Fixpoint auto_deref (fuel : nat) (st : store) (v : value) : value :=
+  match fuel with
+  | 0 => v
+  | S f => match v with
+           | VRef p => match load st p with
+                       | Some (VRef q) => auto_deref f st (VRef q)
+                       | _ => v
+                       end
+           | _ => v
+           end
+  end.
+
+Definition place_string (v : value) : string :=
+  match v with
+  | VRef p => match pl_path p with
+              | [] => pl_root p
+              | [k] => if String.eqb (pl_root p) "self" then k else "?"
+              | _ => "?"
+              end
+  | _ => "?"
+  end.
+
+Definition model_ref_method (name : string) (d : dinput) (x : value) (h : store) : option string :=
+  match item_with name (expanded d) with
+  | Some it => match run_ref_method I0 name it x h with
+               | Some (r, s) => Some (place_string (auto_deref 8 (st_store s) r))
+               | None => None
+               end
+  | None => None
+  end.
+Definition model_deref := model_ref_method "deref".
+Definition model_deref_mut := model_ref_method "deref_mut".
+
+(** `*x = A(99)` through the emitted deref_mut: the content of `self` after the write at the returned place
+    (the atom written keeps the K of the one it replaces) *)
+Definition model_deref_mut_write (d : dinput) (x : value) (h : store) : option string :=
+  match item_with "deref_mut" (expanded d) with
+  | Some it =>
+      match run_ref_method I0 "deref_mut" it x h with
+      | Some (r, s) =>
+          match auto_deref 8 (st_store s) r with
+          | VRef p =>
+              match load (st_store s) p with
+              | Some (VAtom z) =>
+                  match store_set (st_store s) p (VAtom (1000 * atom_k z + 99)%Z) with
+                  | Some st' => option_map show_value (load st' self_pl)
+                  | None => None
+                  end
+              | _ => None
+              end
+          | _ => None
+          end
+      | None => None
+      end
+  | None => None
+  end.
+
+(** ** Into (C10): the impl for the target [T] run with `Into::into` resolved for that target, as support.rs
+    defines it: `From<A<K>> for B<J>` is `B(v + 100 + 1000 K)`, `A<K> : Into<A<J>>` exists for K = J only (the
+    reflexive impl); `m_into` is `B(v + 200 + 1000 K)`, `m_same` is `A(v + 60)` in u8.  Printed like `sv`. *)
+Open Scope Z_scope.
+Definition user2 (path : toks) (args : list value) : value :=
+  match flat path, args with
+  | [m], [VAtom z] =>
+      if String.eqb m "m_into" then VAtom (atom_v z + 200 + 1000 * atom_k z)
+      else if String.eqb m "m_same" then VAtom (1000 * atom_k z + (atom_v z + 60) mod 256)
+      else user1 path args
+  | _, _ => user1 path args
+  end.
+Definition I2 : interp :=
+  {| i_ne := i_ne I0; i_eq := i_eq I0; i_cmp := i_cmp I0; i_partial_cmp := i_partial_cmp I0;
+     i_user := user2; i_size_of_self := 0%nat;
+     i_clone := fun v => v; i_clone_from := fun _ v => v; i_into := fun v => v; i_default := fun _ => VUnit |}.
+
+(** `B<1>` : ("B", "1") *)
+Definition target_kind (T : toks) : option (string * string) :=
+  match flat T with
+  | [c; "<"; j; ">"] => Some (c, j)
+  | _ => None
+  end.
+Definition conv0 (T : toks) (v : value) : value :=
+  match target_kind T, v with
+  | Some (c, j), VAtom z =>
+      if String.eqb c "B" then VAtom (atom_v z + 100 + 1000 * atom_k z)
+      else if String.eqb c "A" && String.eqb j (decZ (atom_k z)) then v
+      else VUnit
+  | _, _ => VUnit
+  end.
+Close Scope Z_scope.
+Definition show_into (T : toks) (r : value) : string :=
+  match target_kind T, r with
+  | Some (c, j), VAtom n =>
+      if String.eqb c "B" then "B" ^^ j ^^ ":" ^^ decZ n
+      else if String.eqb c "A" then show_atom r
+      else "?"
+  | _, _ => "?"
+  end.
+
+Definition into_item_for (T : toks) (items : list item) : option item :=
+  find (fun it => match i_trait it with Some t => flat_eqb t (into_trait T) | None => false end) items.
+
+Definition model_into (d : dinput) (T : toks) (x : value) : option string :=
+  match into_item_for T (expanded d) with
+  | Some it => match run_into I2 conv0 T it x [] with
+               | Some (r, _) => Some (show_into T r)
+               | None => None
+               end
+  | None => None
+  end.
+
+(** ** Default (C08): the emitted `default()` run under an interpretation that keeps `Into::into(e)` and
+    `<ty as Default>::default()` symbolic (a user expression evaluates to its tokens, [VTok]); the printer then
+    gives the literals, the conversions and the field types' defaults the meaning they have in the K2 crate
+    (k2/src/support.rs and core), for the expression forms the default suite writes: integer / float / bool /
+    char / byte / string literals, a leading minus, `A(n)`, `Some(n)`, `None`.  The printer is strict about
+    kinds (a spliced literal must be of the field type's own kind, a converted one must have a `From` impl):
+    anything else prints `?`.  Printed like the suite's `show`. *)
+From Educe.Proofs Require Import P_C08.
+
+Definition ID : interp :=
+  {| i_ne := i_ne I0; i_eq := i_eq I0; i_cmp := i_cmp I0; i_partial_cmp := i_partial_cmp I0;
+     i_user := user0; i_size_of_self := 0%nat;
+     i_clone := fun v => v; i_clone_from := fun _ v => v;
+     i_into := fun v => VData (Some "Into") [("0", v)];
+     i_default := fun ty => VData (Some "Default") [("0", VTok ty)] |}.
+
+Inductive dlit :=
+| DLInt (z : Z) (suffix : string)
+| DLFloat (text suffix : string)     (* text: sign and digits, suffix removed *)
+| DLBool (b : bool)
+| DLChar (text : string)             (* Debug prints the source text back (the suite's literals need no escape) *)
+| DLStr (text : string)
+| DLByte (n : nat)
+| DLAtom (z : Z)                     (* A(n) *)
+| DLSome (z : Z)                     (* Some(n) *)
+| DLNone.
+
+Definition drop_suffix (text suf : string) : string :=
+  substring 0 (String.length text - String.length suf) text.
+
+Definition lit_of (ts : toks) : option dlit :=
+  match ts with
+  | [TLit (LKInt z suf) _] => Some (DLInt z suf)
+  | [TPunct "-"; TLit (LKInt z suf) _] => Some (DLInt (Z.opp z) suf)
+  | [TLit (LKFloat suf) text] => Some (DLFloat (drop_suffix text suf) suf)
+  | [TPunct "-"; TLit (LKFloat suf) text] => Some (DLFloat ("-" ^^ drop_suffix text suf) suf)
+  | [TIdent "true"] => Some (DLBool true)
+  | [TIdent "false"] => Some (DLBool false)
+  | [TLit LKChar text] => Some (DLChar text)
+  | [TStr text _ _] => Some (DLStr text)
+  | [TLit LKByte text] =>
+      match text with
+      | String "b" (String "'" (String c (String "'" EmptyString))) => Some (DLByte (Ascii.nat_of_ascii c))
+      | _ => None
+      end
+  | [TIdent "A"; TGroup Paren [TLit (LKInt z "") _]] => Some (DLAtom z)
+  | [TIdent "Some"; TGroup Paren [TLit (LKInt z "") _]] => Some (DLSome z)
+  | [TIdent "None"] => Some DLNone
+  | _ => None
+  end.
+
+Definition suffix_ok (suf ty : string) : bool := String.eqb suf "" || String.eqb suf ty.
+Definition str_ty : list string := ["&"; "'"; "static"; "str"].
+Definition opt_u8_ty : list string := ["Option"; "<"; "u8"; ">"].
+Definition list_str_eqb (a b : list string) : bool := if list_eq_dec string_dec a b then true else false.
+
+(** the value of the expression [ts] for a field of type [ty], spliced ([into] = false) or through
+    `::core::convert::Into::into` ([into] = true) *)
+Definition show_dexpr (into : bool) (ty ts : toks) : string :=
+  let fty := flat ty in
+  match lit_of ts, fty with
+  | Some (DLInt z suf), [s] =>
+      if mem_str s int_types then (if negb into && suffix_ok suf s then decZ z else "?")
+      else if String.eqb s "f64" then (if into && String.eqb suf "" then decZ z ^^ ".0" else "?")   (* From<i32> for f64 *)
+      else if String.eqb s "N" then (if into && String.eqb suf "" then "N" ^^ decZ z else "?")      (* From<i32> for N *)
+      else "?"
+  | Some (DLFloat text suf), [s] =>
+      if mem_str s float_types then (if negb into && suffix_ok suf s then text else "?")
+      else if String.eqb s "Fl" then (if into && String.eqb suf "" then "Fl" ^^ text else "?")      (* From<f64> for Fl *)
+      else "?"
+  | Some (DLBool b), [s] => if String.eqb s "bool" && negb into then (if b then "true" else "false") else "?"
+  | Some (DLChar text), [s] => if String.eqb s "char" && negb into then text else "?"
+  | Some (DLByte n), [s] => if String.eqb s "u8" && negb into then dec n else "?"
+  | Some (DLStr text), _ =>
+      if list_str_eqb fty str_ty && negb into then text
+      else if list_str_eqb fty ["String"] && into then text                                           (* From<&str> for String *)
+      else "?"
+  | Some (DLAtom z), ["A"; "<"; k; ">"] => if negb into then "A" ^^ k ^^ ":" ^^ decZ z else "?"
+  | Some (DLSome z), _ => if list_str_eqb fty opt_u8_ty && negb into then "Some(" ^^ decZ z ^^ ")" else "?"
+  | Some DLNone, _ => if list_str_eqb fty opt_u8_ty && negb into then "None" else "?"
+  | _, _ => "?"
+  end.
+
+(** `<ty as Default>::default()` for the suite's field types *)
+Definition show_ddefault (ty : toks) : string :=
+  match flat ty with
+  | [s] =>
+      if mem_str s int_types then "0"
+      else if mem_str s float_types then "0.0"
+      else if String.eqb s "bool" then "false"
+      else if String.eqb s "char" then "'\0'"
+      else if String.eqb s "String" then """"""
+      else if String.eqb s "N" then "N77"
+      else if String.eqb s "Fl" then "Fl0.25"
+      else "?"
+  | ["A"; "<"; k; ">"] =>
+      match find (fun n => String.eqb (dec n) k) (seq 0 10) with
+      | Some n => "A" ^^ k ^^ ":" ^^ dec (40 + n)
+      | None => "?"
+      end
+  | fty => if list_str_eqb fty str_ty then """"""
+           else if list_str_eqb fty opt_u8_ty then "None"
+           else "?"
+  end.
+
+Definition variant_fields (d : dinput) (vn : option string) : list field :=
+  match d_data d, vn with
+  | DStruct fs, None => fields_list fs
+  | DEnum vs, Some n =>
+      match find (fun v => String.eqb (v_name v) n) vs with
+      | Some v => fields_list (v_fields v)
+      | None => []
+      end
+  | _, _ => []
+  end.
+Definition field_types (d : dinput) (vn : option string) : list (string * toks) :=
+  map (fun x => (field_key (fst x) (snd x), f_ty (snd x))) (indexed (variant_fields d vn)).
+
+Definition show_dfield (tys : list (string * toks)) (kv : string * value) : string :=
+  match lookup (fst kv) tys, snd kv with
+  | Some ty, VTok ts => show_dexpr false ty ts
+  | Some ty, VData (Some w) [(_, VTok ts)] =>
+      if String.eqb w "Into" then show_dexpr true ty ts
+      else if String.eqb w "Default" then (if flat_eqb ty ts then show_ddefault ts else "?")   (* the emitted call names the field's type *)
+      else "?"
+  | _, _ => "?"
+  end.
+
+Definition model_default (d : dinput) : option string :=
+  match item_with "default" (expanded d) with
+  | Some it =>
+      match run_default ID it with
+      | Some (VData vn fs) =>
+          let tys := field_types d vn in
+          if Nat.eqb (List.length fs) (List.length tys)
+          then Some ((match vn with Some n => n | None => "T" end) ^^ "(" ^^ join "," (map (show_dfield tys) fs) ^^ ")")
+          else Some "?"
+      | Some _ => Some "?"
+      | None => None
+      end
   | None => None
   end.
